@@ -29,7 +29,8 @@ def arr_line(o):
     if op == "slice": return f"2 {o['a']} {term(o['beg'])} {term(o['end'])} {o['s']}"
     if op == "unslice": return f"3 {o['s']} {o['a']}"
     if op == "at": return f"6 {o['a']} {term(o['i'])}"
-    one = {"reset": 4, "release": 5, "data": 7, "size": 8}
+    if op == "release": return f"5 {o['a']} {1 if o['nob'] else 0}"
+    one = {"reset": 4, "data": 7, "size": 8}
     if op in one: return f"{one[op]} {o['a']}"
     raise HarnessError(f"no driver line for generated operation {o}")
 
